@@ -86,6 +86,7 @@ func main() {
 		fs.StringVar(&o.OutDir, "out", "", "")
 		fs.StringVar(&o.Tag, "tag", "w", "")
 		skip := fs.String("skip", "", "")
+		fs.BoolVar(&o.Trace, "trace", false, "")
 		fs.Parse(os.Args[3:])
 		o.Seed = parseSeed(*seed)
 		o.Skip = map[int]bool{}
@@ -118,6 +119,15 @@ func main() {
 		fs.StringVar(&o.RaceExe, "race", "", "")
 		fs.Parse(os.Args[3:])
 		os.Exit(core.ReplayFile(os.Args[2], o))
+	case "selftest":
+		fs := flag.NewFlagSet("selftest", flag.ExitOnError)
+		tier := fs.String("tier", "quick", "")
+		seed := fs.String("seed", "1", "")
+		race := fs.String("race", "", "")
+		scratch := fs.String("scratch", os.TempDir(), "")
+		only := fs.String("only", "", "")
+		fs.Parse(os.Args[2:])
+		os.Exit(core.SelfTest(exe, *race, *tier, parseSeed(*seed), *scratch, *only))
 	case "show":
 		if len(os.Args) < 3 {
 			usage()
